@@ -721,7 +721,13 @@ struct Executor {
         bool dup = sc.got[esi] != 0;
         if (dup) count("duplicate_deliveries"); else count("deliveries");
         if (sc.complete_seen) count("deliveries_after_completion");
-        if (esi < sc.k && !sc.got[esi] && !sc.avail[esi]) sc.first_ptr[esi] = b.p;
+        if (esi < sc.k && !sc.got[esi] && !sc.avail[esi]) {
+            // "submitted while still unknown": for large blocks avail[] is only refreshed every 64th call, so the
+            // pointer-identity obligation is recorded only when the symbol cannot have been decoded yet
+            bool unknown = true;
+            if (sc.k > 2000) unknown = sc.has_peel ? !sc.peel.known[esi] : !sc.complete_seen;
+            if (unknown) sc.first_ptr[esi] = b.p;
+        }
         status(&sc, "decode", false);
         cb_target = &sc;
         int st = ad_decode(sc.h, b.p, esi, sc.s->id);
